@@ -49,6 +49,11 @@ TEXT = [
     "<matplotlib.figure.Figure at 0x7fabcdef0123>",
     "a\n\nb\n\n\n",
     "\n\n",
+    "x = 1",                      # single line without newline ...
+    "x = 12\ny = 2",              # ... similar first line, lines appended
+    "x = 1\n",
+    "a = 1\x0bb = 2\x0cc = 3\nd = 4\u2028e = 5\n",
+    "a = 1\x0bb = 2\x0cc = 3\nd = 4\u2028e = 55\n",   # edit after the exotic separators
 ]
 
 # source variants for notebook cells; index 0 is the base text of a cell
